@@ -18,6 +18,8 @@ CFG = dict(
           dict(test="TestC14SendFail", timeout_quick=200, timeout_thorough=300),
           dict(test="TestC14Long", timeout_quick=300, timeout_thorough=1500)],
     reason_text={"8": "server side: every started handler has returned, yet the server connection still holds something for them: a goroutine beyond writer + workers (none after the end of the connection), or a registry entry", "1": "the real client's observation differs from every outcome of the Gallina model (Model/Client.v, all orders of internal rules)",
+                 "7": "release of the peer's state: a stream whose open succeeded and whose own context ended (cancel, or the caller's deadline) before any final envelope "
+                      "for it was delivered has not written exactly one RST_STREAM with its id by the next quiescent point (scenario without read failure / write faults)",
                  "2": "bounded: at a quiescent point the client registry holds more entries than calls still pending plus live stream loops",
                  "3": "idle: every issued call has ended (returned / open failed / stream cancelled, expired, terminal RecvMsg error, or the "
                       "connection is dead) yet the registry is not empty or a stream-loop goroutine is alive",
